@@ -150,14 +150,9 @@ def slice_adt_fields(F, fn, op, adt_suffix, depth=0, _seen=None, max_nodes=600):
                 h = F.fns.get(r)
                 if h is not None and h["crate"].startswith("tx3") and depth < 3 and (r, "ret") not in _seen:
                     _seen.add((r, "ret"))
-                    for bi, si, s in mir.stmts(h):
-                        if s["lhs"]["l"] == 0:
-                            for o in mir.all_operands_of_rv(s["rv"]):
-                                out |= slice_adt_fields(F, h, o, adt_suffix, depth + 1, _seen)
-                    for bi, t2 in mir.calls(h):
-                        if t2["dest"]["l"] == 0:
-                            for a in t2["args"]:
-                                out |= slice_adt_fields(F, h, a, adt_suffix, depth + 1, _seen)
+                    # everything the callee's return value is computed from - including what a function it merely hands on
+                    # (`pub fn mint_redeemer_index(..) { redeemer_rank::mint_policy_rank(..) }`) returns
+                    out |= slice_adt_fields(F, h, {"l": 0, "p": []}, adt_suffix, depth + 1, _seen)
             else:
                 rv = d[3]["rv"]
                 pls = []
